@@ -36,6 +36,11 @@ def C05(ck):
                 hints = {0, n} | ({1, 2} if T or jobs == 3 else set())
                 for hint in sorted(hints):
                     cfgs.append(rcfg(jobs, clean(n), last=last, lens=(0, 1, 3, 5) if jobs < 4 else (1, 5), hint=hint))
+    # same bytes for every job count also when a block range is requested (the compaction of a batch that starts with skipped
+    # blocks is the one place where a delivered block changes buffers)
+    for jobs in jobs_set[1:]:
+        for fr, to in ((2, 0), (3, 5), (2, 4)) if not T else ((2, 0), (3, 0), (3, 5), (2, 4), (4, 6)):
+            cfgs.append(rcfg(jobs, clean(5), lens=(3,), fr=fr, to=to))
     # the failure clause: a block fails in any position of a batch
     for jobs in jobs_set[1:]:
         for n in ((3, 4, 5) if T else (4,)):
@@ -186,7 +191,7 @@ def C04(ck):
     kzwriter.selftest_asis(ck, wcfg(2, 6, hint=1))
     scen = kzwriter.run_models(ck, cfgs, liveness_cfgs=[wcfg(3, 7, lens=(3, 5))])
     kzwriter.replay(ck, scen)
-    kzwriter.record(ck, 'c04', 140 if T else 25, thorough=T)
+    kzwriter.record(ck, 'c04', 150 if T else 33, thorough=T)
     ck.assumptions += ['E_Local (transform + entropy coding of one block) is treated as a function of the block: the record-mode digests test it']
 
 
@@ -274,7 +279,7 @@ def C01(ck):
                       '(R_CompleteAtEOF) model-checked, all edges replayed on the real code; codec layer (explored, not decided): record-mode '
                       'round trips through NewWriterWithCtx/NewReaderWithCtx over the ten level presets, all single transforms, random chains '
                       'of 1..8 transforms x 9 entropy codecs x 19 data shapes x block sizes x jobs x checksum x hint classes x headerless x '
-                      'Write partitions, judged by Trace_Writer (Close nil, decoded digest = accepted digest); configurations that the '
+                      'Write partitions, plus the full matrix entropy codec x data shape on untransformed blocks (c01m), judged by Trace_Writer (Close nil, decoded digest = accepted digest); configurations that the '
                       'constructor accepts must round-trip (c01cfg). non-trivial = distinct (chain, entropy, block, jobs, ck, hint, partition, shape)')
     kzwriter.selftest_asis(ck, wcfg(2, 6, hint=1))
     scen = kzwriter.run_models(ck, wcfgs)
@@ -283,6 +288,7 @@ def C01(ck):
     kzreader.replay(ck, rscen, set())
     kzwriter.record(ck, 'c01', 6000 if T else 700, thorough=T, timeout=7000)
     kzwriter.record(ck, 'c01cfg', 1500 if T else 300, thorough=T)
+    kzwriter.record(ck, 'c01m', 0, thorough=T)
     ck.assumptions += ['the codec layer is explored on generated data shapes, not decided for all inputs',
                        'decoding uses the real Reader (the round trip is the property)']
 
@@ -379,12 +385,13 @@ def C16(ck):
     runs = [('fixed', 'A', dict(rare=254 if T else 120, dom=6 if T else 3, bigs=(10, 100, 1000, 100000) if T else (10, 1000), lrs=(8, 10, 12, 16) if T else (8, 12))),
             ('fixed', 'B', dict(maxlen=4 if T else 3, menu=(1, 2, 3, 7, 40, 255, 256, 1000, 65535) if T else (1, 2, 3, 40, 255, 256, 1000), lrs=(8, 9, 12, 16) if T else (8, 12))),
             ('fixed', 'C', dict(dom=12 if T else 6, lrs=(8, 9, 10, 11, 12) if T else (8, 10, 12))),
+            ('fixed', 'D', dict(rare=256, dom=16 if T else 64, menu=(1, 2, 3) if T else (1, 2), lrs=(8, 9) if T else (8,))),
             ('asis', 'A', dict(rare=100, dom=3, bigs=(10, 100, 1000), lrs=(8, 12)))]
 
     def one(r):
         mc, c = _norm_cfg(r[0], r[1], **r[2])
-        return kzv.tlc('MC_N', c, workers=4, timeout=3000, extra_files={'MC_N.tla': mc}, heap='3g')
-    with ThreadPoolExecutor(max_workers=3) as ex:
+        return kzv.tlc('MC_N', c, workers=4, timeout=3000, extra_files={'MC_N.tla': mc}, heap='3g', xss='256m')
+    with ThreadPoolExecutor(max_workers=4) as ex:
         results = list(ex.map(one, runs))
     for r, res in zip(runs, results):
         if r[0] == 'fixed':
@@ -429,6 +436,20 @@ def C16(ck):
                     cases.append({'in': [f, 1, tot - f - 1], 'lr': lr, 'conv': cv[0], 'pos': cv[1]})
                     if tot - f - 40 >= 1:
                         cases.append({'in': [1] * 20 + [f, tot - f - 40] + [1] * 20, 'lr': lr, 'conv': cv[0], 'pos': cv[1]})
+    # flat and two-level histograms without a dominant symbol (family D of KzNormFreq): every alphabet size; at the smallest
+    # scales every scaled frequency is 1 or 2 and the whole residual has to be spread over the symbols
+    for lr in ((8, 9, 10, 11, 12, 16) if T else (8, 9, 12)):
+        S = 1 << lr
+        for n in range(1, 257, 1 if (T or lr == 8) else 5):
+            if n > S:
+                continue
+            cv = convs[(n + lr) % 4]
+            for c in (1, 2, 3, 7):
+                cases.append({'in': [c] * n, 'lr': lr, 'conv': cv[0], 'pos': cv[1]})
+            if n >= 4 and (T or n % 3 == 0 or lr == 8):
+                for a in (1, n // 4, n // 2, n - 1):
+                    cases.append({'in': [1] * a + [2] * (n - a), 'lr': lr, 'conv': cv[0], 'pos': cv[1]})
+                    cases.append({'in': [2 + (i % 2) for i in range(a)] + [1] * (n - a), 'lr': lr, 'conv': cv[0], 'pos': cv[1]})
     nrand = 6000 if T else 500
     for i in range(nrand):
         lr = rnd.choice((8, 9, 10, 11, 12, 13, 14, 15, 16))
@@ -489,7 +510,7 @@ def C16(ck):
     ck.cov['traces_validated_against_impl'] += len(cases)
     ck.cov['drift_vs_transcription'] = ndrift
     ck.cov['rule'] = ('NormalizeFrequencies transcribed in KzNormFreq.tla; TLC checks ValidTable on the transcription over family A (r symbols of '
-                      'count 1 + d dominant symbols) and family B (all short sequences over a menu); the same families plus exact-total and random '
+                      'count 1 + d dominant symbols), family B (all short sequences over a menu), family C (rounding boundaries) and family D (flat / two-level histograms of every alphabet size, no dominant symbol); the same families plus exact-total and random '
                       'histograms (counts up to 2^26, alphabets 1..256, scales 2^8..2^16, both calling conventions: symbol-indexed as ANS/RANGE, '
                       'compact as HUFFMAN) go through the real function and TLC evaluates ValidTable on the real outputs (verdict) and equality '
                       'with the transcription (drift, reported only). non-trivial = distinct histogram with >= 2 symbols')
@@ -649,7 +670,7 @@ def C03(ck):
     d = os.path.join(kzv.BUILD, 'c03_%d' % os.getpid())
     tracef = d + '.ndjson'
     cmd = [kzh, 'c03', '-bases', str(400 if T else 40), '-big', str(6 if T else 1), '-per', str(0 if T else 70), '-seed', str(ck.seed),
-           '-out', tracef, '-sum', d + '.sum', '-dir', d, '-par', str(kzv.NCPU)]
+           '-out', tracef, '-sum', d + '.sum', '-dir', d, '-par', str(kzv.NCPU), '-frames']
     if T:
         cmd.append('-thorough')
     try:
@@ -701,7 +722,9 @@ def C03(ck):
                       'then exploration: base streams over random chains / all codecs; mutants = KzFormat field catalogue (header fields with the '
                       'header checksum recomputed, every transform/entropy code, block length width and length, mode byte, skip flags, '
                       'pre-transform length, first 24 bytes of the codec data = per-codec headers such as BWT primary indexes, LZ/ROLZ/alphabet '
-                      'headers) x {0, max, +-1, bit flips, random} + random bytes, truncation, splices, garbage; the multi-MiB inverse BWT regime; '
+                      'headers) x {0, max, +-1, bit flips, random} + random bytes, truncation, splices, garbage; the short-frame family (every entropy '
+                      'codec x checksum and every transform: the frame re-framed to every length from one byte to 20 bytes beyond its head, inside '
+                      'a well-formed container); the multi-MiB inverse BWT regime; '
                       'each mutant decoded in a child process (jobs 1..8) under a watchdog; Trace_Total: exit by normal return within the bound. '
                       'non-trivial = distinct (base stream, mutation) other than identity')
     ck.assumptions += ['totality over all byte strings is explored, not decided', 'time bound per mutant: 45 s (60 s for 5 MiB BWT blocks) while valid decodes take milliseconds; a hang is re-run alone before it counts']
@@ -1272,11 +1295,11 @@ def _bitout_cfg(maxbits, bitsops, arrops, fail='{}', buf=64, closeimpl='fixed'):
     return mc, c
 
 
-def _bitin_cfg(impl, chunks, bitsops, arrops, n=96, buf=64, errat=-1, invs='InOrder NoSpuriousEOF ErrOnlyWhenNeeded Counter'):
+def _bitin_cfg(impl, chunks, bitsops, arrops, n=96, buf=64, errat=-1, invs='InOrder NoSpuriousEOF ErrOnlyWhenNeeded Counter OverreadFails', over=0):
     mc = '---- MODULE MC_I ----\nEXTENDS KzBitIn\nMCChunks == {%s}\nMCBits == {%s}\nMCArr == {%s}\nMCErrAt == %s\n====\n' % (
         chunks, bitsops, arrops, ('0-1' if errat < 0 else str(errat)))
-    c = ('CONSTANTS\n N = %d\n BUF = %d\n Chunks <- MCChunks\n BitsOps <- MCBits\n ArrOps <- MCArr\n ErrAt <- MCErrAt\n Impl = "%s"\n'
-         'SPECIFICATION Spec\nINVARIANTS %s\nCHECK_DEADLOCK FALSE\n') % (n, buf, impl, invs)
+    c = ('CONSTANTS\n N = %d\n BUF = %d\n Chunks <- MCChunks\n BitsOps <- MCBits\n ArrOps <- MCArr\n ErrAt <- MCErrAt\n Over = %d\n Impl = "%s"\n'
+         'SPECIFICATION Spec\nINVARIANTS %s\nCHECK_DEADLOCK FALSE\n') % (n, buf, over, impl, invs)
     return mc, c
 
 
@@ -1320,8 +1343,13 @@ def C14(ck):
     in_runs = [(_bitin_cfg('fixed', '1,7,8,13,64', '3,8,33', '8,64,128,300'), True, 'in A'),
                (_bitin_cfg('fixed', '5,9,64', '1,7,64', '0,63,256,520' if T else '63,256,520', n=120), True, 'in B'),
                (_bitin_cfg('fixed', '7,64', '3,8', '64,128', errat=40), False, 'in source error at 40'),
-               (_bitin_cfg('fixed', '1,64', '3,8', '64,300', errat=70), False, 'in source error at 70')]
-    selftests = [(_bitin_cfg('asis', '1,7,8,64', '3,8', '64,128,300'), 'asis short reads: spurious end of data'),
+               (_bitin_cfg('fixed', '1,64', '3,8', '64,300', errat=70), False, 'in source error at 70'),
+               # requests beyond the end of the source (truncated stream, forged lengths): every operation kind, every size of the last partial word
+               (_bitin_cfg('fixed', '1,7,64', '3,8,33,64', '8,64,128,300', n=27, over=200), False, 'in over-read N=27'),
+               (_bitin_cfg('fixed', '5,64', '1,8,33,64', '8,64,72,300', n=24, over=130), False, 'in over-read N=24'),
+               (_bitin_cfg('fixed', '3,64', '7,8,57,64', '64,128,200', n=29, over=130), False, 'in over-read N=29')]
+    selftests = [(_bitin_cfg('nocheck', '1,7,64', '3,8,33,64', '8,64,128,300', n=27, over=200, invs='OverreadFails'), 'asis-like ReadBits that trusts pull: over-read returns phantom bits'),
+                 (_bitin_cfg('asis', '1,7,8,64', '3,8', '64,128,300'), 'asis short reads: spurious end of data'),
                  (_bitin_cfg('asis', '13,64', '3,8', '64,128,300'), 'asis short reads: bits out of order')]
     out_selftests = [(_bitout_cfg(200, '3,8', '64', fail='{1}', closeimpl='asis'), 'asis failed Close keeps the padding subtracted from the counter (F19)')]
 
@@ -1356,12 +1384,24 @@ def C14(ck):
                                       'src': 'model'})
                     progs.append({'ops': ops, 'bufW': 1024, 'bufR': 1024, 'fill': 0, 'chunks': chunks or [], 'src': 'model'})
         shutil.rmtree(d, ignore_errors=True)
+    _bits_run(ck, progs, 30000 if T else 3000, T, ('C14_',))
+    ck.cov['rule'] = ('KzBitOut.tla and KzBitIn.tla (the real paths: accumulator, buffer thresholds, aligned / unaligned bulk paths, partial words, refill, '
+                      'deferred error, Close) model-checked against the bit vector reference for a 64-byte buffer over operation menus around the 8/32-byte '
+                      'and 64/256-bit thresholds, all source chunkings, failing sink / source; the edge cover of each graph becomes programs executed on the '
+                      'real streams (started so that the first buffer boundary falls where the model has it) and random long programs for buffers 1 KiB..256 KiB '
+                      'and chunked sources; every operation is compared with a bit vector; Trace_Bits.tla judges counters (prefix sums of the operation sizes), '
+                      'byte image, values read, refusal after Close. non-trivial = distinct program with >= 2 operations')
+
+
+def _bits_run(ck, progs, nrandom, T, prefixes):
+    """Execute bit-level programs (model programs + random ones) on the real bit streams; Trace_Bits judges every program.
+    Only predicates starting with one of `prefixes` are verdicts of the calling check (the others belong to another property's check)."""
     kzh = kzv.build_harness()
-    base = os.path.join(kzv.BUILD, 'tlc', 'bits_%d' % os.getpid())
+    base = os.path.join(kzv.BUILD, 'tlc', 'bits_%s_%d' % (ck.pid, os.getpid()))
     with open(base + '.progs', 'w') as fh:
         for p in progs:
             fh.write(json.dumps(p) + '\n')
-    cmd = [kzh, 'bits', '-n', str(30000 if T else 3000), '-seed', str(ck.seed), '-progs', base + '.progs', '-out', base + '.ndjson', '-sum', base + '.sum']
+    cmd = [kzh, 'bits', '-n', str(nrandom), '-seed', str(ck.seed), '-progs', base + '.progs', '-out', base + '.ndjson', '-sum', base + '.sum']
     if T:
         cmd.append('-thorough')
     rc, so, se, dt = kzv.run(cmd, timeout=3 * 3600)
@@ -1376,6 +1416,12 @@ def C14(ck):
     ck.cov['transitions'] += res.generated
     seen = set()
     for e, pred in _violations_from(res.out, tr):
+        if not pred.startswith(tuple(prefixes)):
+            note = ('bit-level lead %s (a read beyond the end of the data returned instead of failing): not a verdict of this property; '
+                    'its stream-level consequences are decided by C03 (short frames) and C09 (cuts)' % pred)
+            if note not in ck.notes:
+                ck.notes.append(note)
+            continue
         key = (pred, e['src'], e['firstBad'][:30])
         if key in seen or len(seen) > 12:
             continue
@@ -1388,12 +1434,6 @@ def C14(ck):
     ck.cov['programs_by_origin'] = summ['byMode']
     for s in summ['samples'][:2]:
         ck.sample({'program': {k: (v if k != 'ops' else v[:12]) for k, v in s.items()}})
-    ck.cov['rule'] = ('KzBitOut.tla and KzBitIn.tla (the real paths: accumulator, buffer thresholds, aligned / unaligned bulk paths, partial words, refill, '
-                      'deferred error, Close) model-checked against the bit vector reference for a 64-byte buffer over operation menus around the 8/32-byte '
-                      'and 64/256-bit thresholds, all source chunkings, failing sink / source; the edge cover of each graph becomes programs executed on the '
-                      'real streams (started so that the first buffer boundary falls where the model has it) and random long programs for buffers 1 KiB..256 KiB '
-                      'and chunked sources; every operation is compared with a bit vector; Trace_Bits.tla judges counters (prefix sums of the operation sizes), '
-                      'byte image, values read, refusal after Close. non-trivial = distinct program with >= 2 operations')
     for f in (base + '.progs', base + '.ndjson', base + '.sum'):
         os.remove(f)
 
